@@ -62,6 +62,11 @@ def record_sets(g, chains, maxlen):
             sets.append((f"all-touch-reference[{','.join(sub)}]", allref))
             sets.append((f"some-touch-none[{','.join(sub)}]", allref + unk))
     sets.append(("none-touch-reference", unk))
+    # every contig contributes exactly one record / one contig has one record and the others many
+    ones = [ref[c][0] for c in chroms if ref[c]]
+    sets.append(("one-record-per-contig", ones))
+    if len(chroms) >= 2 and ref[chroms[0]] and ref[chroms[1]]:
+        sets.append(("single-record-contig-among-others", ref[chroms[0]][:1] + ref[chroms[1]] + unk[:1]))
     return sets
 
 
